@@ -364,6 +364,9 @@ func (w *world) bind(prog []any, inst int) []any {
 		switch op[0].(int) {
 		case chainx.OpCall:
 			args := op[4].([]any)
+			if len(args) == 0 {
+				break
+			}
 			if _, ok := args[0].(selfT); ok {
 				args[0] = w.hashes[inst].BytesBE()
 			}
@@ -492,6 +495,7 @@ type real struct {
 	Notes []string `json:"notes"`
 	State *State   `json:"state"`
 	Fees  int64    `json:"fees"`
+	tx    *transaction.Transaction
 }
 
 const sysFee = 3 * gasUnit
@@ -557,7 +561,7 @@ func (rg *rig) runBlock(ops []Op, committee bool) (*real, error) {
 		return nil, fmt.Errorf("no execution result: %v", err)
 	}
 	a := aers[0]
-	res := &real{Halt: a.VMState.String() == "HALT", Fault: a.FaultException, Fees: tx.SystemFee + tx.NetworkFee}
+	res := &real{Halt: a.VMState.String() == "HALT", Fault: a.FaultException, Fees: tx.SystemFee + tx.NetworkFee, tx: tx}
 	if res.Halt {
 		res.Log = rg.w.renderStack(a.Stack)
 	}
